@@ -2264,7 +2264,9 @@ class SQLCompiler(Compiled):
 
             # if POSTCOMPILE included a bind_expression, render that
             # around each element
-            if m.group(2):
+            if m.group(2) and to_update_sets.get(key, True):
+                # (an empty list rendered the dialect's empty-set expression,
+                # which is not a list of values: nothing to wrap)
                 tok = m.group(2).split("~~")
                 be_left, be_right = tok[1], tok[3]
                 expr = ", ".join(
@@ -3468,9 +3470,22 @@ class SQLCompiler(Compiled):
                 "(%s)"
                 % (
                     ", ".join(
-                        self.render_literal_value(value, param_type)
+                        self.render_literal_value(
+                            value,
+                            (
+                                sqltypes._resolve_value_to_type(value)
+                                if param_type is None
+                                or param_type._isnull
+                                else param_type
+                            ),
+                        )
                         for value, param_type in zip(
-                            tuple_element, parameter.type.types
+                            tuple_element,
+                            (
+                                parameter.type.types
+                                if typ_dialect_impl._is_tuple_type
+                                else [None] * len(tuple_element)
+                            ),
                         )
                     )
                 )
